@@ -1,5 +1,6 @@
 import SvModel.Lemmas.OriginMap
 import SvModel.Core.Pp
+import SvModel.Lemmas.Walker
 /-!
 # C03 — the origin map sends every output byte back to where it came from (M4 theorems)
 
@@ -41,6 +42,24 @@ theorem C03_built_tiled (t : POut) (h : Built t) : t.Tiled := by
   | empty => exact tiled_empty
   | push t s src _ ih => exact push_tiled t s src ih
   | merge t o _ _ ih1 ih2 => exact merge_tiled t o ih1 ih2
+
+/-- **every successful run of the walker model returns a tiled output** — all configurations, file systems, inputs, define tables,
+    flags, recursion depths and fuel; through includes (`merge`) and macro expansions (`push` of the expansion text) -/
+theorem C03_walker_tiled (C : Cfg) (fuel : Nat) (s path : Bytes) (d : Defines) (ii sc : Bool) (rd id : Nat) (out : POut) (dd : Defines)
+    (h : preprocessStr C fuel s path d ii sc rd id = .ok (out, dd)) : out.Tiled :=
+  TiledRes_ok ((walk_tiled C fuel).1 s path d ii sc rd id) h
+
+theorem C03_walker_tiled_file (C : Cfg) (fuel : Nat) (path : Bytes) (d : Defines) (sc ii : Bool) (rd id : Nat) (out : POut) (dd : Defines)
+    (h : preprocessInner C fuel path d sc ii rd id = .ok (out, dd)) : out.Tiled :=
+  TiledRes_ok ((walk_tiled C fuel).2.2 path d sc ii rd id) h
+
+/-- hence **no byte of any output of the walker model lacks a segment**, and the lookup returns that segment's file and the byte's
+    offset inside the recorded source range (or none for a segment pushed without a source: `__FILE__`, `__LINE__`, caller defines) -/
+theorem C03_walker_origin (C : Cfg) (fuel : Nat) (path : Bytes) (d : Defines) (sc ii : Bool) (out : POut) (dd : Defines)
+    (h : preprocessInner C fuel path d sc ii 0 0 = .ok (out, dd)) (pos : Nat) (hp : pos < out.text.length) :
+    ∃ k v, (k, v) ∈ out.origins ∧ k.b ≤ pos ∧ pos < k.e ∧
+      out.origin pos = (match v.src with | some (p, r) => some (p, pos - k.b + r.b) | none => none) :=
+  origin_tiled out (C03_walker_tiled_file C fuel path d sc ii 0 0 out dd h) pos hp
 
 /-- `get_origin(locate) = origin(locate.offset)`: the lookup for a token is the lookup of its first byte (by
     definition in `sv-parser/src/lib.rs:72`); on a tiled output it is therefore the origin of the segment holding the
